@@ -237,6 +237,7 @@ func Main(id, tier string, seed int64, self string) int {
 	var mu sync.Mutex
 	var results []*CaseResult
 	var harnessErrs []string
+	violating, skipped := 0, 0
 	var wg sync.WaitGroup
 	for k := 0; k < par; k++ {
 		wg.Add(1)
@@ -245,6 +246,16 @@ func Main(id, tier string, seed int64, self string) int {
 			for j := range jobs {
 				from := j.from
 				for from < j.to {
+					mu.Lock()
+					stop := violating >= 4
+					mu.Unlock()
+					if stop {
+						// the verdict is settled; do not spend the budget on more witnesses
+						mu.Lock()
+						skipped += j.to - from
+						mu.Unlock()
+						break
+					}
 					out := filepath.Join(work, fmt.Sprintf("r-%d-%d.log", from, j.to))
 					errFile := out + ".stderr"
 					ef, _ := os.Create(errFile)
@@ -270,6 +281,11 @@ func Main(id, tier string, seed int64, self string) int {
 					rs, started := readResults(out)
 					mu.Lock()
 					results = append(results, rs...)
+					for _, r := range rs {
+						if len(r.Violations) != 0 {
+							violating++
+						}
+					}
 					mu.Unlock()
 					next := from + len(rs)
 					switch {
@@ -294,6 +310,7 @@ func Main(id, tier string, seed int64, self string) int {
 							cr.Violations = []Violation{{Sig: kind, Msg: fmt.Sprintf("child process died with exit code %d in case %d", code, started), Case: started, Detail: map[string]any{"stderr": tail}}}
 							mu.Lock()
 							results = append(results, cr)
+							violating++
 							mu.Unlock()
 						}
 						if started >= 0 {
@@ -314,7 +331,7 @@ func Main(id, tier string, seed int64, self string) int {
 	}
 	wg.Wait()
 	sort.Slice(results, func(i, j int) bool { return results[i].Case < results[j].Case })
-	return report(p, tier, seed, total, results, harnessErrs, time.Since(start))
+	return report(p, tier, seed, total-skipped, results, harnessErrs, time.Since(start))
 }
 
 func firstLines(s string, n int) string {
